@@ -190,7 +190,7 @@ CHECKS = {
         "DESIGN.md §6 C20",
     ),
     "C19": (
-        "Coq proof (case analysis over a model of Python's built-in values; tables proved for every integer / every code string; precedence lemmas; regex search characterised) tied (1) by a fail-closed AST translator that regenerates _classify / default_classifier / strict_classifier and http.py's _coerce_status / http_classifier as decision programs (PyIRC.v) on every run, with re-proved obligations that they are the model's functions for every exception object, and (2) by in-Coq equality of all classifier answers on generated exception objects incl. exhaustive integer ranges",
+        "Coq proof (case analysis over a model of Python's built-in values; tables proved for every integer / every code string; precedence lemmas; regex search characterised) tied (1) by a fail-closed AST translator that regenerates _classify / default_classifier / strict_classifier, http.py's _coerce_status / http_classifier, sqlstate_classifier and pyodbc_classifier as decision programs (PyIRC.v) on every run, with re-proved obligations that they are the model's functions for every exception object, and (2) by in-Coq equality of all classifier answers on generated exception objects incl. exhaustive integer ranges",
         "Theorems C19_* (marker types win over codes, codes over names, strict ignores names; status table and http table for every "
         "integer; first-int attribute order of http_classifier; SQLSTATE table, attribute before args, fallbacks; optional-library "
         "classifier = default_classifier when the library is absent; an int sqlstate beyond CPython's int-to-str digit limit yields "
@@ -199,7 +199,8 @@ CHECKS = {
         "correspondence run. With-library behaviour of the optional classifiers is not claimed.",
         "Trusted: Coq kernel + vm_compute; pyir_classify.py and PyIRC.v (incl. the identification of the three name heuristics with "
         "the abstraction's three booleans); hand-written model Classify.v (default / strict / http proved equal to the translated "
-        "source; sqlstate / pyodbc / optional classifiers tied by correspondence only); classify_driver.py; the "
+        "source, likewise sqlstate / pyodbc up to the meaning of their two regular expressions; optional classifiers tied by "
+        "correspondence only); classify_driver.py; the "
         "harness's transcription of values (str() text, code points, \\w flag per character).",
         "DESIGN.md §6 C19",
     ),
